@@ -24,7 +24,7 @@ def search(rep: C.Report, tier: str, broken):
     import models
     r = C.rng("C06")
     nv = 8 if tier == "quick" else 40
-    for name, th in HC.eos_families(tier):
+    for name, th in HC.eos_families("thorough" if broken else tier):
         try:
             h = HC.make_hydro(th)
         except Exception:  # noqa: BLE001
@@ -72,6 +72,35 @@ def search(rep: C.Report, tier: str, broken):
                     bad.append("detonation: v- below sound speed (strong branch)")
             for b in bad:
                 rep.violation(f"inadmissible/misclassified matching: {b}", info, finding_key=f"C06:{b.split(':')[0]}:{b}")
+        # the deflagration/hybrid transition: locate vw* = cs-(T-(vw*)) by bisection on the real matching, scan around it
+        def gap(v):
+            m = h.findMatching(v)
+            return None if m[0] is None else v - math.sqrt(float(th.csqLowT(float(m[3]))))
+        try:
+            cs0 = math.sqrt(float(th.csqLowT(Tn)))
+            a, b_ = max(h.vMin * 1.05, 0.6 * cs0), min(1.15 * cs0, h.vJ - 1e-3)
+            ga, gb = gap(a), gap(b_)
+            if ga is not None and gb is not None and ga < 0 < gb:
+                for _ in range(28):
+                    mid = 0.5 * (a + b_)
+                    gm = gap(mid)
+                    if gm is None:
+                        break
+                    a, b_ = (mid, b_) if gm < 0 else (a, mid)
+                vstar = 0.5 * (a + b_)
+                nscan = 24 if tier == "quick" else 120
+                for k in range(nscan):
+                    vw = vstar + 3e-3 * (2 * (k + 0.5) / nscan - 1) * (1.0 if k % 3 else 0.1)
+                    vp, vm, Tp, Tm = map(float, h.findMatching(vw))
+                    cs = math.sqrt(float(th.csqLowT(Tm)))
+                    rep.case(key=(name, "transition", k))
+                    rep.count("transition scan points")
+                    info = {"eos": name, "vw": vw, "vp": vp, "vm": vm, "Tp": Tp, "Tm": Tm, "cs_minus": cs, "transition_at": vstar}
+                    if vm > vw * (1 + 1e-12) or vm > cs * (1 + 1e-9) or abs(vm - min(vw, cs)) > 1e-9:
+                        rep.violation("at the deflagration/hybrid transition the returned v- is not min(vw, cs-(T-))", info,
+                                      finding_key="C06:transition")
+        except Exception as ex:  # noqa: BLE001
+            rep.count("transition scan raised " + type(ex).__name__)
         # Chapman-Jouguet: just above vJ a detonation has v- ~ cs-(T-)  (square-root approach)
         try:
             vpj, vmj, Tpj, Tmj = h.matchDeton(h.vJ * (1 + 1e-7) + 1e-9)
